@@ -139,3 +139,11 @@ func New(b Backend, typeName, id string) interface{} {
 	}
 	return nil
 }
+
+// the implementors of Named add optional arguments of their own to the interface's field say
+func (a *A) Say(mood int32) (interface{}, error) {
+	return a.r("say", map[string]interface{}{"mood": int(mood)})
+}
+func (b *B) Say(loud bool) (interface{}, error) {
+	return b.B.ReflResolve(b.ID, "say", map[string]interface{}{"loud": loud})
+}
